@@ -222,7 +222,7 @@ structure Out where
   trace : List Ev
   err : Option Exn
   dir : Dir
-deriving Repr
+deriving Repr, DecidableEq
 
 /-- `if isinstance(handle, str): handle = open(handle, "w")` then `handle.write(text)` -/
 def emit (h : Handle) (d : Dir) (text : Bytes) : List Ev × Dir :=
@@ -302,13 +302,13 @@ def isRegionGbk (n : String) : Bool :=
     && ((cs.drop (k - 14)).take 7 == ".region".toList) && (cs.drop (k - 4) == ".gbk".toList)
 
 /-- `input_file.endswith(".json")` -/
-def reuseMode (p : PrepIn) : Bool := p.inputFile.endsWith ".json"
+def reuseMode (p : PrepIn) : Bool := ".json".toList.isSuffixOf p.inputFile.toList
 
 structure PrepOut where
   trace : List Ev
   err : Option Exn
   target : Target
-deriving Repr
+deriving Repr, DecidableEq
 
 /-- `prepare_output_directory` (with an explicit, non-empty directory name) -/
 def prepareOutputDir (p : PrepIn) : PrepOut :=
